@@ -1,6 +1,6 @@
 use crate::{
     Chunk, DebugInfo, FunctionFlags, Op, StringFormatFlags,
-    frame::{Arg, AssignedOrReserved, Frame, FrameError},
+    frame::{Arg, AssignedOrReserved, Frame, FrameError, OpenTry},
 };
 use circular_buffer::CircularBuffer;
 use derive_name::VariantName;
@@ -582,7 +582,7 @@ impl Compiler {
                         (None, None) => {}
                     }
 
-                    self.compile_try_ends_for_loop_exit()?;
+                    self.compile_early_try_exits(self.loop_exit_try_depth(), ctx)?;
                     self.push_op(Jump, &[]);
                     self.push_loop_jump_placeholder()?;
 
@@ -598,7 +598,7 @@ impl Compiler {
                     if let Some(result_register) = loop_result_register {
                         self.push_op(SetNull, &[result_register]);
                     }
-                    self.compile_try_ends_for_loop_exit()?;
+                    self.compile_early_try_exits(self.loop_exit_try_depth(), ctx)?;
                     self.push_jump_back_op(JumpBack, &[], loop_start_ip)?;
 
                     CompileNodeOutput::none()
@@ -758,11 +758,25 @@ impl Compiler {
 
         let check_return_type = !self.frame().is_generator;
 
+        // Try expressions that are left by the return need to be cleaned up before returning
+        let leaves_try_expressions = !self.frame().try_stack().is_empty();
+
         let result = if let Some(expression) = expression {
-            let expression_result = self.compile_node(expression, ctx.with_any_register())?;
-            let expression_register = expression_result.unwrap(self)?;
+            let mut expression_result = self.compile_node(expression, ctx.with_any_register())?;
+            let mut expression_register = expression_result.unwrap(self)?;
             if check_return_type {
                 self.compile_check_output_type(expression_register, Some(return_node), ctx)?;
+            }
+
+            if leaves_try_expressions {
+                if !expression_result.is_temporary {
+                    // The value to be returned is taken now, before any finally blocks are run
+                    let return_register = self.push_register()?;
+                    self.push_op(Copy, &[return_register, expression_register]);
+                    expression_register = return_register;
+                    expression_result = CompileNodeOutput::with_temporary(return_register);
+                }
+                self.compile_early_try_exits(0, ctx)?;
             }
 
             match ctx.result_register {
@@ -787,6 +801,10 @@ impl Compiler {
                 }
             }
         } else {
+            if leaves_try_expressions {
+                self.compile_early_try_exits(0, ctx)?;
+            }
+
             let result = self.assign_result_register(ctx)?;
             match result.register {
                 Some(result_register) => {
@@ -2179,24 +2197,49 @@ impl Compiler {
         }
     }
 
-    // Clears the catch points of the try blocks that are left by a `break` or `continue`
+    // Compiles the cleanup that's needed when try expressions are left early
     //
-    // Without this the catch points would stay registered after the loop has been exited,
-    // and errors thrown later on in the frame would end up in the abandoned catch block.
-    fn compile_try_ends_for_loop_exit(&mut self) -> Result<()> {
-        let open_try_blocks = self.frame().open_try_blocks();
-        let open_at_loop_start = match self.frame().current_loop() {
-            Some(loop_info) => loop_info.open_try_blocks,
-            None => return Ok(()),
-        };
-
+    // `break` and `continue` leave the try expressions that were opened inside the current loop,
+    // `return` leaves all of the frame's open try expressions.
+    // - Catch points of try blocks that are being left are cleared, otherwise they would stay
+    //   registered, and errors thrown later on in the frame would end up in the abandoned catch
+    //   block.
+    // - Finally blocks get compiled inline, innermost first.
+    fn compile_early_try_exits(
+        &mut self,
+        exit_depth: usize,
+        ctx: CompileNodeContext,
+    ) -> Result<()> {
         // A dummy byte is appended to TryEnd as required by the bytecode format.
         let dummy_byte = 0;
-        for _ in open_at_loop_start..open_try_blocks {
-            self.push_op_without_span(Op::TryEnd, &[dummy_byte]);
+
+        let mut depth = self.frame().try_stack().len();
+        while depth > exit_depth {
+            depth -= 1;
+            let open_try = self.frame().try_stack()[depth];
+
+            if open_try.catch_point_registered {
+                self.push_op_without_span(Op::TryEnd, &[dummy_byte]);
+            }
+
+            if let Some(finally_block) = open_try.finally_block {
+                // The finally block is outside of the try expression that it belongs to,
+                // so the try expressions that are being left are hidden while it's compiled.
+                let hidden = self.frame_mut().split_off_try_stack(depth);
+                let result = self.compile_node(finally_block, ctx.compile_for_side_effects());
+                self.frame_mut().restore_try_stack(hidden);
+                result?;
+            }
         }
 
         Ok(())
+    }
+
+    fn loop_exit_try_depth(&self) -> usize {
+        match self.frame().current_loop() {
+            Some(loop_info) => loop_info.open_try_expressions,
+            None => self.frame().try_stack().len(),
+        }
     }
 
     fn compile_try_expression(
@@ -2227,12 +2270,19 @@ impl Compiler {
             _ => ResultRegister::None,
         };
 
-        // Loops that are exited from within the try block need to clear the catch point
-        self.frame_mut().try_block_opened();
+        // Early exits from the try expression (break, continue, return) need to clear the catch
+        // point while in the try block, and need to run the finally block.
+        self.frame_mut().push_try(OpenTry {
+            finally_block: *finally_block,
+            catch_point_registered: true,
+        });
         let try_block_result =
             self.compile_node(*try_block, ctx.with_register(try_result_register));
-        self.frame_mut().try_block_closed();
-        try_block_result?;
+        self.frame_mut().innermost_try_block_finished();
+        if let Err(error) = try_block_result {
+            self.frame_mut().pop_try();
+            return Err(error);
+        }
 
         // Clear the catch point at the end of the try block
         // - if the end of the try block has been reached then the catch block is no longer needed.
@@ -2329,6 +2379,9 @@ impl Compiler {
         }
 
         self.pop_register()?; // catch_register
+
+        // The catch blocks have been compiled, so early exits are no longer a concern
+        self.frame_mut().pop_try();
 
         // Compile the finally block
         for placeholder in finally_jump_placeholders {
